@@ -460,6 +460,27 @@ pub fn big_hit_case(code: &str, r: &mut Rng, name: String) -> Case {
     Case { name, lang: code.to_string(), stream: "H-store-big-hit-lists", ops }
 }
 
+/// stores in which some titles tokenise to no word at all ("", "???", " - "), queried for the records added after them:
+/// the record vector, the index length and the counter vector must stay in step
+pub fn blank_title_cases(code: &str, r: &mut Rng, n: usize) -> Vec<Case> {
+    let v = vocab(code);
+    let mut cases = vec![];
+    for i in 0..n {
+        let mut ops = vec![Op::New];
+        let mut words: Vec<String> = vec![];
+        let total = r.range(2, 9);
+        for k in 0..total {
+            if r.chance(1, 3) { ops.push(Op::Add(k + 1, r.below(1000), r.pick(&["", "???", " - ", "...", "\u{a0}", "'"]).to_string())); }
+            else { let w = v.word(r); words.push(w.clone()); ops.push(Op::Add(k + 1, r.below(1000), w)); }
+            if r.chance(1, 3) { if let Some(w) = words.last() { ops.push(Op::Search(w.clone())); ops.push(Op::Prepare(w.clone(), 3)); } }
+        }
+        for w in words.iter().rev().take(3) { ops.push(Op::Search(w.clone())); ops.push(Op::Prepare(w.clone(), 1)); }
+        ops.push(Op::Search("".to_string()));
+        cases.push(Case { name: format!("blank-{}-{}", code, i), lang: code.to_string(), stream: "F-store-blank-titles", ops });
+    }
+    cases
+}
+
 pub fn store_cases(code: &str, r: &mut Rng, n: usize) -> Vec<Case> {
     let v = vocab(code);
     let mut cases = vec![];
